@@ -177,9 +177,8 @@ class GeoNetwork(SpatialNetwork):
                          silence_level=silence_level)
 
         #  Extract node weights
-        if "node_weight_nsi" in graph.vs.attribute_names():
-            node_weights = \
-                np.array(graph.vs.get_attribute_values("node_weight_nsi"))
+        node_weights = GeoNetwork._node_weights_from_graph(graph)
+        if node_weights is not None:
             net.node_weights = node_weights
 
         #  Overwrite igraph Graph object in Network instance to restore link
